@@ -202,7 +202,11 @@ def check(run):
     run.check(okc, 'R4', 'parse-error-closes', orr.norm, orr.loc(), why or 'a parse failure is not caught and turned into close_connection()', 'every entry into the parsing code is inside a function-try-block that closes the connection')
     hs = [orr] if protected(orr) else [cf for cf, c in fx.callers.get(orr.usr, []) if protected(cf)]
     for h_ in hs[:1]:
-        engines.throws_are_caught(run, h_, [fx.fn1('sim::parse_request')] + [g_ for g_ in [orr] if g_ is not h_])
+        # the handlers registered with the server run inside on_read() too (through the std::function stored in m_handlers):
+        # the closures built by the register_* members are its callees
+        reg = [lf for g_ in fx.repo_functions() if g_.cls == H and g_.name.split('::')[-1].startswith('register_') for lf in fx.lambdas_in(g_)]
+        import inline as _inline
+        engines.throws_are_caught(run, h_, [fx.fn1('sim::parse_request')] + [g_ for g_ in [orr] if g_ is not h_] + reg)
     run.clause('content-length agrees with the body generated: in register_content the length handed to send_response equals the length handed to the generator')
     rc = fx.fn1(H + '::register_content')
     lams = fx.lambdas_in(rc)
@@ -253,4 +257,6 @@ def check(run):
     import p07 as _p07
     _p07.abandoned_connect_rules(run)
     _p07.peer_gone_rule(run)
+    run.clause('stop() refuses the clients still waiting in the listen queue: acceptor::close(ec) drains the accept queue, after the socket is closed (shared with C07/C11)')
+    _p07.accept_queue_drained_rule(run)
     run.floor('R4', 4)
